@@ -305,6 +305,63 @@ def window_clamp(rep, prog, rule):
         rep.bad(rule, "normalise", f.loc, "no division of the weights by their sum found")
 
 
+def supersampling_size(rep, prog, rule):
+    """the nearest-neighbour intermediate image of SuperSampling"""
+    from ..sym import Sym, fmt
+    rep.rule(rule, "the intermediate image of resample_super_sampling is the cropped source reduced "
+             "by ONE factor on both axes: width = round(crop.width / f), height = "
+             "round(crop.height / f) with the same f (the smaller of the two scale factors divided "
+             "by the multiplicity), as documented; the second step is then the convolution of that "
+             "image. Sizes that do not depend on the crop box, or two different divisors, reduce "
+             "the axes by different factors (the less reduced axis of the documented image is "
+             "sub-sampled more coarsely and convolved with another kernel width): violation; any "
+             "other form is undecided")
+    fs = [f for f in prog.fns.values() if f.name.endswith("Resizer::resample_super_sampling")]
+    if len(fs) != 1:
+        rep.unk(rule, "anchor", "", "%d candidates for resample_super_sampling" % len(fs))
+        return
+    f = fs[0]
+    rep.touch(f)
+    sym = Sym(f)
+    sites = [c for c in f.calls() if c.name.rsplit("::", 1)[-1].startswith("get_temp_image_from_buffer")]
+    rep.floor(rule, "intermediate images of resample_super_sampling", len(sites), 1)
+
+    def core(e):
+        while isinstance(e, tuple) and e:
+            if e[0] == "cast":
+                e = e[2]
+            elif e[0] in ("call", "callat") and (e[1] if e[0] == "call" else e[2]) in ("round", "ceil", "floor", "max", "min") \
+                    and len(e[2] if e[0] == "call" else e[3]) >= 1 and \
+                    (e[1] if e[0] == "call" else e[2]) == "round":
+                e = (e[2] if e[0] == "call" else e[3])[0]
+            else:
+                break
+        return e
+    for c in sites:
+        w = core(sym.operand(c.args[1], (c.bb, "term")))
+        h = core(sym.operand(c.args[2], (c.bb, "term")))
+        key = "resample_super_sampling|intermediate-size"
+        sw, sh = fmt(w), fmt(h)
+        if "crop_box" not in sw and "crop" not in sw or ("crop_box" not in sh and "crop" not in sh):
+            rep.bad(rule, key + "|not-from-crop", c.at,
+                    "the intermediate image is %s x %s: not derived from the crop box, so the two axes "
+                    "are not reduced by one common factor (only a resize that keeps the aspect ratio "
+                    "gets the documented image)" % (sw[:90], sh[:90]))
+            continue
+        if w[0] == "bin" and w[1] == "Div" and h[0] == "bin" and h[1] == "Div":
+            nw, nh = fmt(w[2]), fmt(h[2])
+            if w[3] == h[3] and nw.endswith(".width") and nh.endswith(".height"):
+                rep.ok(rule, key, c.at, "crop.width / f x crop.height / f with f = %s" % fmt(w[3])[:100])
+            elif w[3] != h[3]:
+                rep.bad(rule, key + "|two-factors", c.at,
+                        "width is divided by %s, height by %s: the axes are reduced by different factors"
+                        % (fmt(w[3])[:80], fmt(h[3])[:80]))
+            else:
+                rep.unk(rule, key, c.at, "numerators %s / %s" % (nw[:60], nh[:60]))
+        else:
+            rep.unk(rule, key, c.at, "sizes %s x %s" % (sw[:80], sh[:80]))
+
+
 def run(rep, tier):
     cfgs = ["x86"] if tier == "quick" else ["x86", "x86-rayon", "arm", "wasm"]
     for cfg, prog in programs(cfgs):
@@ -316,6 +373,11 @@ def run(rep, tier):
         rep.call(formulas.coefficients_formula, rep, prog, "C01.formula")
         rep.call(formulas.quantise, rep, prog, "C01.quantise")
         rep.call(dispatch_rules.precision_reach, rep, prog, "C01.precision-reach")
+        from ..engines import siblings
+        rep.call(siblings.forwarded_args, rep, prog, "C01.forwarded-options")
+        rep.call(supersampling_size, rep, prog, "C01.supersampling-size")
+        from ..engines import validators
+        rep.call(validators.crop_passthrough, rep, prog, "C01.crop-passthrough")
         # "rounding is to nearest (single-pass results are within half a unit)": the rounding terms
         # that reach every final shift total exactly half an output unit
         from ..engines import roundbudget, simd_rules
